@@ -224,3 +224,7 @@ func specAlive[K comparable, V any](n Node[K, V]) bool {
 //@   ensures [create-weight] ghost_hasWeight() ==> ghost_weight(result) == weight
 //@   ensures [create-state] (ghost_hasState() ==> ghost_state(result) == aliveState) && (ghost_hasSize() ==> ghost_queueType(result) == InWindowQueue && ghost_prev(result) == nil && ghost_next(result) == nil)
 //@   ensures [create-unlinked] ghost_hasExpLinks() ==> ghost_prevExp(result) == nil && ghost_nextExp(result) == nil
+
+//@ func (*Manager).FromPointer : C05
+//@   assumed the generated CastPointerTo* functions convert the pointer back to the node it was taken from (dispatch through a function value chosen by NewManager)
+//@   ensures [round-trip] result != nil && result.AsPointer() == ptr
